@@ -1,6 +1,7 @@
 // C10: nudging of orthogonal connectors that share a corridor.
 #include "libavoid/libavoid.h"
 #include <cmath>
+#include <algorithm>
 #include <array>
 #include <vector>
 #include <functional>
@@ -25,6 +26,47 @@ static bool onRoute(const PolyLine &d, Point p) { for (size_t i = 1; i < d.size(
 
 struct Cfg { double nd; int W; unsigned opts; int heap; bool checkpoint; };
 static const RoutingOption OPTS[4] = {nudgeOrthogonalSegmentsConnectedToShapes, performUnifyingNudgingPreprocessingStep, nudgeOrthogonalTouchingColinearSegments, nudgeSharedPathsWithCommonEndPoint};
+
+// "The channel is wide enough for the requested nudging distance": a placement of the movable horizontal segments exists that keeps
+// every pair of x-overlapping segments of different connectors (not both fixed) at least `gap` apart.  Mirrors the limits the library
+// itself applies (orthogonal.cpp buildOrthogonalNudgingSegments): end segments and the segment carrying a checkpoint are fixed (with
+// end-segment nudging on they may move 15 units instead); a segment under the shapes stays inside the channel band; an S/Z bend stays
+// between its neighbours; a segment next to the checkpoint's segment does not pass the checkpoint.  Decided exactly: every order of
+// the movable segments x lowest placement.
+struct ChSeg { int conn; double xlo, xhi, y; bool fixed; double lo, hi; };
+// With `finals` (the routes after nudging, same point counts) the question is narrowed to the order the library chose: is the full gap
+// feasible with every movable segment on the side of every other segment where it ended up?
+static bool channelFeasible(const vector<PolyLine> &raws, double W, unsigned opts, bool hasCp, Point cp, double gap, const vector<PolyLine> *finals = nullptr) {
+    vector<double> fin;
+    vector<ChSeg> fx, fr; const double INF = 1e18, bandLo = 2 * S, bandHi = (2 + W) * S;
+    for (size_t ci = 0; ci < raws.size(); ci++) { const PolyLine &r = raws[ci]; size_t n = r.size();
+        for (size_t i = 1; i < n; i++) { if (r.ps[i].y != r.ps[i - 1].y || r.ps[i].x == r.ps[i - 1].x) continue; double y = r.ps[i].y; if (y < bandLo - 1e-9 || y > bandHi + 1e-9) continue;
+            ChSeg g{(int)ci, min(r.ps[i].x, r.ps[i - 1].x), max(r.ps[i].x, r.ps[i - 1].x), y, false, -INF, INF}; bool isEnd = (i == 1) || (i + 1 == n);
+            bool cpOn = hasCp && ci == 0 && fabs(cp.y - y) < 1e-9 && cp.x >= g.xlo - 1e-9 && cp.x <= g.xhi + 1e-9;
+            if (!(opts & 1)) g.fixed = isEnd || cpOn; else if (isEnd) { g.lo = y - 15; g.hi = y + 15; }
+            if (!g.fixed) { if (g.xhi > S && g.xlo < 3 * S) { g.lo = max(g.lo, bandLo); g.hi = min(g.hi, bandHi); }
+                if (!isEnd && !cpOn) { double pv = r.ps[i - 2].y, nx = r.ps[i + 1].y; if (pv < y && nx > y) { g.lo = max(g.lo, pv); g.hi = min(g.hi, nx); } else if (pv > y && nx < y) { g.lo = max(g.lo, nx); g.hi = min(g.hi, pv); }
+                    if (hasCp && ci == 0) for (size_t v : {i - 1, i}) { double vx = r.ps[v].x; size_t o = (v == i - 1) ? i - 2 : i + 1; double ylo = min(r.ps[v].y, r.ps[o].y), yhi = max(r.ps[v].y, r.ps[o].y);
+                        if (fabs(cp.x - vx) < 1e-9 && cp.y >= ylo - 1e-9 && cp.y <= yhi + 1e-9 && fabs(cp.y - y) > 1e-9) { if (cp.y < y) g.lo = max(g.lo, cp.y); else g.hi = min(g.hi, cp.y); } } } }
+            if (finals && !g.fixed) { if ((*finals)[ci].size() != n) return false; fin.push_back((*finals)[ci].ps[i].y); }
+            (g.fixed ? fx : fr).push_back(g); } }
+    auto ov = [](const ChSeg &a, const ChSeg &b) { return a.conn != b.conn && min(a.xhi, b.xhi) - max(a.xlo, b.xlo) > 1e-9; };
+    vector<int> perm(fr.size()); for (size_t i = 0; i < perm.size(); i++) perm[i] = i;
+    if (finals) { sort(perm.begin(), perm.end(), [&](int a, int b) { return fin[a] < fin[b]; }); vector<double> pos(fr.size());
+        for (size_t a = 0; a < perm.size(); a++) { ChSeg &f = fr[perm[a]]; double lb = f.lo, ub = f.hi;
+            for (size_t b = 0; b < a; b++) if (ov(f, fr[perm[b]])) { if (fin[perm[b]] > fin[perm[a]] - 1e-9) return false; lb = max(lb, pos[perm[b]] + gap); }
+            for (auto &g : fx) if (ov(f, g)) { if (fabs(fin[perm[a]] - g.y) < 1e-9) return false; if (fin[perm[a]] > g.y) lb = max(lb, g.y + gap); else ub = min(ub, g.y - gap); }
+            if (lb > ub + 1e-9) return false; pos[perm[a]] = lb; }
+        // (placing each at its lowest position can only help the ones after it; upper bounds from later movable segments are implied)
+        return true; }
+    do { vector<double> pos(fr.size()); bool ok = true;
+        for (size_t a = 0; a < perm.size() && ok; a++) { ChSeg &f = fr[perm[a]]; double lb = f.lo; for (size_t b = 0; b < a; b++) if (ov(f, fr[perm[b]])) lb = max(lb, pos[perm[b]] + gap);
+            for (bool moved = true; moved;) { moved = false; for (auto &g : fx) if (ov(f, g) && fabs(lb - g.y) < gap - 1e-9) { lb = g.y + gap; moved = true; } }
+            if (lb > f.hi + 1e-9) ok = false; pos[perm[a]] = lb; }
+        if (ok) return true;
+    } while (next_permutation(perm.begin(), perm.end()));
+    return false;
+}
 
 // corridor scene: two tall rectangles x in [1,3], leaving a channel y in [2,2+W] (cells); connectors run from x=0 to x=4
 static void run_case(const vector<array<int, 4>> &E, const Cfg &c) {
@@ -52,23 +94,41 @@ static void run_case(const vector<array<int, 4>> &E, const Cfg &c) {
             for (size_t q = 1; q < d.size(); q++) if (d.ps[q].x != d.ps[q - 1].x && d.ps[q].y != d.ps[q - 1].y) ctx.violation("not_orthogonal_after_nudging", {}, desc, all);
             if (c.checkpoint && i == 0 && !onRoute(d, cp)) ctx.violation("checkpoint_off_route", kc, desc, mcx::fmt("checkpoint (%g,%g) route %s", cp.x, cp.y, rstr(d).c_str()));
         }
-        // "wide enough": the free interval round the shared stretch holds k-1 gaps of the ideal distance; a checkpoint pins
-        // its connector to the middle of the channel, which halves the room on either side
-        bool wide = c.checkpoint ? ((k - 1) * c.nd <= c.W * S / 2.0 - 1) : ((k - 1) * c.nd <= c.W * S + 1e-9);
+        // "wide enough for the requested nudging distance": decided exactly by channelFeasible() on the routes before nudging
+        vector<PolyLine> raws; for (int i = 0; i < k; i++) raws.push_back(cs[i]->route().simplify());
+        bool wide = channelFeasible(raws, c.W, c.opts, c.checkpoint, cp, c.nd);
+        if (wide) ctx.count("wide_enough");
+        // The library reduces the gap (in steps of a tenth, never below a tenth) only when the full distance is infeasible.  The full
+        // distance is demanded where nothing but the channel walls limits the segments: no endpoint inside the channel band (a fixed
+        // end segment there, or an S/Z bend limited by it, takes room), and - with end-segment nudging on, where a free end segment
+        // may move 15 units at most - no endpoint on the band's edge either.  Otherwise: at least a tenth of the distance.
+        bool strictSep = true; for (auto &e : E) for (int q : {1, 3}) { if (e[q] > 2 && e[q] < 2 + c.W) strictSep = false; if (((c.opts & 1) || c.checkpoint) && e[q] >= 2 && e[q] <= 2 + c.W) strictSep = false; }   // (a checkpoint holds its segment mid-channel: an end segment on the band's edge then closes off that half)
+        vector<PolyLine> fins; for (int i = 0; i < k; i++) fins.push_back(cs[i]->displayRoute());
+        bool fullFeasibleInChosenOrder = wide && channelFeasible(raws, c.W, c.opts, c.checkpoint, cp, c.nd, &fins);
+        double needSep = (strictSep && fullFeasibleInChosenOrder) ? c.nd : c.nd / 10; if (needSep == c.nd) ctx.count("full_distance_demanded");
+        // class: a fixed end segment lying on a channel wall shares a stretch with another connector's segment
+        { bool endOnWall = false; for (int i = 0; i < k; i++) for (int j = 0; j < k; j++) if (i != j) for (auto &s : segs(cs[i]->displayRoute())) for (auto &t : segs(cs[j]->displayRoute())) { double dist; double L = overlapLen(s, t, dist);
+              if (L > 1e-9 && dist < 1e-9 && s.end && s.y0 == s.y1 && (fabs(s.y0 - 2 * S) < 1e-9 || fabs(s.y0 - (2 + c.W) * S) < 1e-9) && max(s.x0, s.x1) > S && min(s.x0, s.x1) < 3 * S) endOnWall = true; }
+          if (endOnWall) kc.push_back("end_segment_on_channel_wall_shares_stretch"); }
+        // class: unifying preprocessing on, and two FIXED segments (end segments, or the one carrying the checkpoint) of different connectors are collinear and overlapping
+        if ((c.opts & 2) && !(c.opts & 1)) { bool ff = false; auto fixedSeg = [&](int ci, const Seg &s) { return s.end || (c.checkpoint && ci == 0 && onRoute([&] { PolyLine pl(2); pl.ps[0] = Point(s.x0, s.y0); pl.ps[1] = Point(s.x1, s.y1); return pl; }(), cp)); };
+            for (int i = 0; i < k; i++) for (int j = i + 1; j < k; j++) for (auto &s : segs(cs[i]->displayRoute())) for (auto &t : segs(cs[j]->displayRoute())) { double dist; double L = overlapLen(s, t, dist); if (L > 1e-9 && dist < 1e-9 && fixedSeg(i, s) && fixedSeg(j, t)) ff = true; }
+            if (ff) kc.push_back("unifying_onto_overlapping_fixed_segments"); }
         for (int i = 0; i < k; i++) for (int j = i + 1; j < k; j++) {
             PolyLine r1 = cs[i]->route().simplify(), r2 = cs[j]->route().simplify();
             for (auto &s : segs(r1)) for (auto &t : segs(r2)) { double dist; double L = overlapLen(s, t, dist); if (L > 1e-9 && !s.end && !t.end && dist < 1e-9) share = true; }
             for (auto &s : segs(cs[i]->displayRoute())) for (auto &t : segs(cs[j]->displayRoute())) { double dist; double L = overlapLen(s, t, dist);
                 if (L > 1e-9 && !s.end && !t.end && wide) {
-                    if (dist < 1e-9) {
+                    if (dist < 1e-6) {
                         // class: shared-path nudging switched off and some connector's endpoint lies on the shared stretch
                         vector<string> kc2 = kc; bool horiz = s.y0 == s.y1; double lo = horiz ? max(min(s.x0, s.x1), min(t.x0, t.x1)) : max(min(s.y0, s.y1), min(t.y0, t.y1)), hi = horiz ? min(max(s.x0, s.x1), max(t.x0, t.x1)) : min(max(s.y0, s.y1), max(t.y0, t.y1));
                         bool epOn = false; for (auto cr : cs) for (int q = 0; q < 2; q++) { const PolyLine &dr = cr->displayRoute(); const Point &ep = q ? dr.ps[dr.size() - 1] : dr.ps[0]; if (horiz ? (fabs(ep.y - s.y0) < 1e-6 && ep.x >= lo - 1e-6 && ep.x <= hi + 1e-6) : (fabs(ep.x - s.x0) < 1e-6 && ep.y >= lo - 1e-6 && ep.y <= hi + 1e-6)) epOn = true; }
                         if (!((c.opts >> 3) & 1) && epOn) kc2.push_back("shared_path_nudging_off_and_endpoint_on_shared_stretch");
+                        if ((c.opts & 1) && c.checkpoint) kc2.push_back("end_segment_nudging_with_checkpoint");
                         ctx.violation("shared_path_not_separated", kc2, desc, all); }
-                    else if (dist < c.nd - 1e-6 && dist < S * c.W) { // both inside the channel band?  only judge pairs that lie in the channel
+                    else if (dist < needSep - 1e-6 && dist < S * c.W) { // both inside the channel band?  only judge pairs that lie in the channel
                         bool inCh = (s.y0 == s.y1) && s.y0 > 2 * S - 1e-9 && s.y0 < (2 + c.W) * S + 1e-9 && t.y0 > 2 * S - 1e-9 && t.y0 < (2 + c.W) * S + 1e-9;
-                        if (inCh) ctx.violation("separated_less_than_nudging_distance", kc, desc, mcx::fmt("distance %g < %g:", dist, c.nd) + all); }
+                        if (inCh) ctx.violation("separated_less_than_nudging_distance", kc, desc, mcx::fmt("distance %g < %g:", dist, needSep) + all); }
                 } }
         }
         if (share) ctx.count("nontrivial");
@@ -96,10 +156,10 @@ static void phase(int k, const Cfg &c) {
 int main(int argc, char **argv) {
     ctx.init(argc, argv);
     bool T = ctx.thorough();
-    for (double nd : {1.0, 4.0, 12.0}) for (unsigned o = 0; o < 16; o++) phase(2, {nd, 1, o, 0, false});
-    for (double nd : {1.0, 4.0, 12.0}) for (unsigned o : {0u, 3u, 5u, 10u, 15u}) phase(3, {nd, 1, o, 0, false});
-    for (double nd : {4.0, 12.0}) for (unsigned o : {0u, 15u}) { phase(2, {nd, 2, o, 0, false}); phase(2, {nd, 1, o, 0, true}); }
-    if (T) { for (double nd : {1.0, 4.0, 12.0}) for (unsigned o = 0; o < 16; o++) { phase(3, {nd, 1, o, 0, false}); phase(2, {nd, 2, o, 0, false}); phase(2, {nd, 1, o, 0, true}); }
-             for (double nd : {4.0, 12.0}) for (unsigned o : {0u, 2u, 15u}) { phase(3, {nd, 2, o, 0, false}); phase(3, {nd, 1, o, 0, true}); } phase(4, {4, 1, 2, 0, false}); phase(4, {4, 2, 15, 0, false}); }
+    for (double nd : {1.0, 4.0, 12.0}) for (unsigned o = 0; o < 16; o++) { phase(2, {nd, 1, o, 0, false}); phase(3, {nd, 1, o, 0, false}); phase(2, {nd, 2, o, 0, false}); phase(2, {nd, 1, o, 0, true}); }
+    for (double nd : {4.0, 12.0}) for (unsigned o : {0u, 2u, 15u}) { phase(3, {nd, 2, o, 0, false}); phase(3, {nd, 1, o, 0, true}); }
+    phase(4, {4, 1, 2, 0, false}); phase(4, {4, 2, 15, 0, false});
+    if (T) { for (double nd : {1.0, 4.0, 12.0}) for (unsigned o = 0; o < 16; o++) { phase(3, {nd, 2, o, 0, false}); phase(3, {nd, 1, o, 0, true}); phase(2, {nd, 3, o, 0, false}); phase(2, {nd, 2, o, 0, true}); }
+             for (double nd : {1.0, 4.0, 12.0}) for (unsigned o : {0u, 2u, 8u, 15u}) { phase(4, {nd, 1, o, 0, false}); phase(4, {nd, 2, o, 0, false}); phase(3, {nd, 3, o, 0, false}); phase(3, {nd, 2, o, 0, true}); } }
     return ctx.finish();
 }
